@@ -225,7 +225,7 @@ def attribute(table, postings):
     return [[k for k in feas[n] if lo[n] <= k <= hi[n]] for n in range(len(feas))]
 
 
-def floor_violations(inp, out):
+def floor_violations(inp, out, stats=None):
     """C01: replay ALL postings of the script, in order, on the balances it was run against (Python integers: no bound on the
     magnitudes).  A posting that takes from a non-world account must leave it at or above -(the overdraft granted to that account by
     the SEND the posting belongs to): a bound granted by one statement — or `allowing unbounded overdraft` in one statement — does not
@@ -249,6 +249,13 @@ def floor_violations(inp, out):
                 gr = None if any(x is None for x in grs) else max(grs)
                 by = "its statement (no. %s)" % "/".join(str(table[k]["stmt"] + 1) for k in owners[n])
             after = R.get((src, asset), 0) - amt
+            if stats is not None and amt > 0:
+                stats["postings_from_a_non_world_account"] += 1
+                stats["judged_against_the_grant_of_their_own_statement"] += 1 if by != "the script" else 0
+                stats["of_which_in_a_script_of_several_sends"] += 1 if by != "the script" and len(table) > 1 else 0
+                stats["of_which_the_statement_is_not_unique"] += 1 if by != "the script" and len(owners[n]) > 1 else 0
+                stats["bounded_here_although_unbounded_elsewhere_in_the_script"] += 1 if gr is not None and g.get((src, asset), 0) is None else 0
+                stats["balance_or_amount_beyond_64_bits"] += 1 if max(abs(after), abs(after + amt), amt) >= 2 ** 63 else 0
             if gr is not None and amt > 0 and after < -gr:
                 v.append(("floor", "posting %d takes %d %s from %s leaving %d, below -(overdraft %d granted by %s)" % (n, amt, asset, src, after, gr, by)))
         R[(src, asset)] = R.get((src, asset), 0) - amt
@@ -294,6 +301,46 @@ def distribution(inputs, impl):
         for f in features(i):
             feats[f] += 1
     return {"outcomes": dict(cls), "constructs": dict(feats)}
+
+
+def sendall_bottomless(inp):
+    """"unbounded" / "world" when the script has a `send [A *]` whose source is, or whose ordered source list ends with, an account
+    `allowing unbounded overdraft` / @world (the language refuses such a text); else None"""
+    def last(s):
+        while s["k"] == "inorder" and s["ss"]:
+            s = s["ss"][-1]
+        return s
+    for st in inp["ast"]["stmts"]:
+        if st["k"] == "send" and st["amt"]["k"] == "all" and st["src"]["k"] == "src":
+            s = last(st["src"]["s"])
+            if s["k"] == "acct":
+                if s["e"]["k"] == "acct" and s["e"]["v"] == "world":
+                    return "world"
+                if (s.get("od") or {}).get("k") == "unbounded":
+                    return "unbounded"
+    return None
+
+
+def focus_stats(inputs, impl):
+    """how often each focused shape of harness/numscript_focus.go occurred in this run, by variant and by outcome, and how many
+    texts of the whole stream ask for `send [A *]` from a bottomless source (and what the real compiler answered)"""
+    shape, variant, outcome, bottomless = collections.Counter(), collections.Counter(), {}, collections.Counter()
+    for i in inputs:
+        o = impl.get(i["id"]) or {}
+        res = o.get("err") or ("panic" if "panic" in o else "ok")
+        b = sendall_bottomless(i)
+        if b:
+            bottomless["send_all_from_%s" % b] += 1
+            bottomless["send_all_from_%s:%s" % (b, "refused_by_the_compiler" if res == "compile_error" else "NOT_refused:" + res)] += 1
+        if not i.get("focus"):
+            continue
+        shape[i["shape"]] += 1
+        variant[i["focus"]] += 1
+        outcome.setdefault(i["shape"], collections.Counter())[res] += 1
+    return {"programs": len(inputs), "focused": sum(shape.values()), "by_shape": dict(shape), "by_variant": dict(sorted(variant.items())),
+            "outcomes_by_shape": {k: dict(v) for k, v in outcome.items()}, "send_all_from_a_bottomless_source": dict(bottomless),
+            "rule": "an additional case in front of about 7 % of the generated programs, drawn from a stream of its own (the other programs of the seed "
+                    "are what they were); `/control` variants are neighbours that must behave ordinarily"}
 
 
 def rebind_stats(inputs, impl):
